@@ -314,6 +314,41 @@ def parent_flags_fn(kind, strict):
     return fn
 
 
+def many_blocks_fn(k, strand, op):
+    """one operand with MANY blocks (common symbolic length and gap, one block longer by a symbolic amount) against a single interval: size-dependent
+    code paths (bisecting sorted starts/ends, early exits in block scans) start only at some block count"""
+
+    def fn(s0, L, G, x, bs, bl, p):
+        A, cur = [], s0
+        for i in range(k):
+            n = L + (x if i == k // 3 else 0)
+            A.append((cur, cur + n))
+            cur = cur + n + G
+        B = [(bs, bs + bl)]
+        la = make_location(A, strand, force_compound=True)
+        lb = make_location(B, strand)
+        inA, inB = member(p, A), member(p, B)
+        if op == "intersection":
+            res = la.intersection(lb)
+            return AND(mult(p, blocks_of(res)) == ITE(AND(inA, inB), 1, 0), wellformed(res))
+        if op == "intersection_rev":
+            res = lb.intersection(la)
+            return AND(mult(p, blocks_of(res)) == ITE(AND(inA, inB), 1, 0), wellformed(res))
+        if op == "minus":
+            res = la.minus(lb)
+            return mult(p, blocks_of(res)) == ITE(AND(inA, NOT(inB)), 1, 0)
+        if op == "union":
+            res = la.union(lb)
+            return AND(mult(p, blocks_of(res)) == ITE(OR(inA, inB), 1, 0), wellformed(res))
+        if op == "has_overlap":
+            return AND(IFF(la.has_overlap(lb), overlap_spec(A, B)), IFF(lb.has_overlap(la), overlap_spec(A, B)))
+        if op == "contains":
+            return IFF(la.contains(lb), AND(overlap_spec(A, B), inter_measure(A, B) == total_len(B)))
+        raise KeyError(op)
+
+    return fn
+
+
 # ------------------------------------------------------------------ unary operations
 def _unary_params(k, extra):
     p = dict(layout_params(k))
@@ -623,6 +658,16 @@ def obligations(tier):
                 out.append(Obl("gaps_overlapping_k%d_%s" % (k, sname(s)), gaps_fn(k, s, signed=True), _unary_params(k, {"p": int}), pre, budget=600, cost=30,
                                desc="gaps_location on overlapping/nested layouts: p in gaps <=> inside the span of the non-empty blocks and covered by no block",
                                bounds="k=%d blocks, signed gaps, unbounded ints" % k, examples=[ex, dict(ex, l0=40, l1=3, g1=-30, p=20)]))
+    for s in (PLUS, MINUS):
+        for op in ("intersection", "intersection_rev", "minus", "union", "has_overlap", "contains"):
+            if quick and op != "has_overlap":
+                continue  # ~1000 paths each: thorough tier
+            out.append(Obl("%s_many_k17_%s" % (op, sname(s)), many_blocks_fn(17, s, op), dict(s0=int, L=int, G=int, x=int, bs=int, bl=int, p=int),
+                           lambda s0, L, G, x, bs, bl, p: s0 >= 0 and L >= 1 and G >= 1 and x >= 0 and bs >= 0 and bl >= 1, budget=3600 if op != "has_overlap" else 900,
+                           cost=900 if op != "has_overlap" else 60,
+                           desc="%s of a 17-block location (common symbolic block length/gap, one longer block) and a single interval equals position-set semantics" % op,
+                           bounds="17 x 1 blocks, unbounded symbolic start/length/gap/extra/interval/probe",
+                           examples=[dict(s0=100, L=7, G=3, x=2, bs=118, bl=40, p=130), dict(s0=0, L=1, G=1, x=0, bs=5, bl=1, p=5)]))
     for o in out:
         if o.kind == "crosshair":
             o.fn = operands_unchanged(o.fn)
